@@ -30,7 +30,8 @@ RULE = ("exhaustive product of __conform__ behaviour (11) x provided (2) x alter
         "hooks raising AttributeError/TypeError; hooks and registry adapter factories that start a nested adaptation "
         "J(other, None) before answering (every hook call at depth d is checked to be hook(I_d, obj_d), the nested call is "
         "judged like any other); the adapted object, the alternate and every value a step produces also range over falsy "
-        "objects and tuples of every shape.  Every case is non-trivial (it runs the call); distinct = "
+        "objects, tuples of every shape and objects with hostile __eq__/__ne__ (always True, always False, raising, "
+        "unittest.mock.ANY), in every call shape (obj / alternate positional or keyword).  Every case is non-trivial (it runs the call); distinct = "
         "distinct (conform kind, provided, hook kinds, alternate given, chain shape) signature")
 TRUSTED_BASE = ["interpreters Model/PyKernel.v and Model/CKernel.v (semantics of the statement languages and of the C API "
                 "calls that occur in IB__call__/IB__adapt__) and the fail-closed translators harness/translate/adapt_py.py, adapt_c.py",
@@ -225,11 +226,24 @@ def generate(run, tier):
                     for alt in (None, 2, 3):
                         for provides in ((False, True) if of != "plain" else (False,)):
                             cases.append(_case("flav", chain, conform, provides, hs, alt, objflavour=of,
-                                               flavour=k % 11))
+                                               flavour=k % 15, shape=("pp", "pk", "kk", "kk_rev")[(k // 15) % 4]))
                             k += 1
+    # 3f. hostile comparison methods: identity, not equality, must decide everywhere.  Alternates, adapted
+    #     objects and step results whose __eq__ / __ne__ always answer True, always False, or raise
+    #     (and unittest.mock.ANY as alternate), in every call shape (obj / alternate positional or keyword)
+    for of in ("plain", "eqtrue", "eqtruene", "eqfalse", "eqraise"):
+        for alt in (None, 5, 6, 7, 8, 9, 1):
+            for shape in ("pp", "pk", "kk", "kk_rev"):
+                for chain in ([], [_lvl(["none"], False)], [_lvl(["delegate"], True)]):
+                    for conform, provides, hs in ((["absent"], False, []), (["retnone"], False, [["none"], ["none"]]),
+                                                  (["absent"], False, [["none"], ["value", 11]]),
+                                                  (["retvalue", 50], False, []), (["absent"], True, [["value", 10]])):
+                        cases.append(_case("hostile", chain, conform, provides, hs, alt, objflavour=of,
+                                           flavour=11 + (k % 4), shape=shape))
+                        k += 1
     for req in ("IReq", "ISubReq"):
         for reg in ("IReq", "Interface"):
-            for fl in range(11):
+            for fl in range(15):
                 for alt in (None, 2):
                     cases.append({"kind": "registry", "req": req, "reg": reg, "factory_none": False,
                                   "provides": False, "alt": alt, "flavour": fl})
@@ -267,10 +281,12 @@ def generate(run, tier):
                            attach=rng.choice(ATTACH), watch=rng.random() < 0.6,
                            te0how=rng.choice(["partial", "arity"])))
         if rng.random() < 0.4:
-            cases[-1]["flavour"] = rng.randrange(11)
-            cases[-1]["alt"] = rng.choice([None, 0, 1, 2, 3, 4])
+            cases[-1]["flavour"] = rng.randrange(15)
+            cases[-1]["alt"] = rng.choice([None, 0, 1, 2, 3, 4, 5, 6, 7, 8, 9])
+            cases[-1]["shape"] = rng.choice(["pp", "pk", "kk", "kk_rev"])
             if cases[-1]["attach"] != "slots":
-                cases[-1]["objflavour"] = rng.choice(["plain", "tuple0", "tuple1", "tuple2", "nested", "falsy", "len0"])
+                cases[-1]["objflavour"] = rng.choice(["plain", "tuple0", "tuple1", "tuple2", "nested", "falsy", "len0",
+                                                        "eqtrue", "eqtruene", "eqfalse", "eqraise"])
     return cases
 
 
@@ -436,15 +452,22 @@ def replay_text(case, obs, mode):
                           "" if case["alt"] is None else ", alt", "" if case["alt"] is None else ", default=alt"))
     L = [head, "import functools, operator", "from zope.interface import Interface, implementer, directlyProvides",
          "from zope.interface.interface import adapter_hooks, interfacemethod", "log = []", ""]
+    L += ["class EqTrue:", "    __hash__ = object.__hash__", "    def __eq__(self, other): return True",
+          "class EqTrueNeTrue(EqTrue):", "    def __ne__(self, other): return True",
+          "class EqFalse:", "    __hash__ = object.__hash__", "    def __eq__(self, other): return False",
+          "    def __ne__(self, other): return False",
+          "class EqRaises:", "    __hash__ = object.__hash__", "    def __eq__(self, other): raise RuntimeError('__eq__ called')",
+          "    def __ne__(self, other): raise RuntimeError('__ne__ called')", ""]
     fl = case.get("flavour")
     if fl is None:
         L += ["def V(tag):   # the value a step returns", "    return tag", ""]
     else:
         L += ["class FalsyBool:", "    def __bool__(self): return False", "class LenZero:", "    def __len__(self): return 0",
               "FLAVOURS = [lambda t: (), lambda t: 0, lambda t: '', lambda t: [], lambda t: FalsyBool(), lambda t: LenZero(),",
-              "            lambda t: (t, t), lambda t: (t,), lambda t: ((t, t),), lambda t: float('0.0'), lambda t: {}]",
+              "            lambda t: (t, t), lambda t: (t,), lambda t: ((t, t),), lambda t: float('0.0'), lambda t: {},",
+              "            lambda t: EqTrue(), lambda t: EqTrueNeTrue(), lambda t: EqFalse(), lambda t: EqRaises()]",
               "_vals = {}", "def V(tag):   # the value a step returns: falsy objects and tuples are adapters like any other",
-              "    if tag not in _vals:", "        _vals[tag] = FLAVOURS[(%d + len(_vals)) %% 11](tag)" % fl,
+              "    if tag not in _vals:", "        _vals[tag] = FLAVOURS[(%d + len(_vals)) %% 15](tag)" % fl,
               "    return _vals[tag]", ""]
     base = "Interface"
     if not case["chain"]:
@@ -543,7 +566,13 @@ def replay_text(case, obs, mode):
         L.append("obj = Obj()")
     of = case.get("objflavour", "plain")
     if of != "plain" and case.get("objkind") != "classobj":
-        if of in ("falsy", "len0"):
+        if of in ("eqtrue", "eqtruene", "eqfalse", "eqraise"):
+            hc = {"eqtrue": "EqTrue", "eqtruene": "EqTrueNeTrue", "eqfalse": "EqFalse", "eqraise": "EqRaises"}[of]
+            L += ["class HObj(%s, Obj):   # the adapted object has hostile comparison methods" % hc, "    pass"]
+            if case["provides"]:
+                L.append("implementer(I)(HObj)")
+            L.append("obj = HObj()")
+        elif of in ("falsy", "len0"):
             L.append("Obj.%s = lambda self: %s   # the adapted object is falsy" % (
                 "__bool__" if of == "falsy" else "__len__", "False" if of == "falsy" else "0"))
         else:
@@ -582,8 +611,15 @@ def replay_text(case, obs, mode):
                "raise": "raise %s('hook %d')" % (en.get(h[1] if len(h) > 1 else "", "ValueError"), i)}[h[0]]
         L += ["def hook%d(iface, ob):" % i, "    log.append('hook %d'); %s" % (i, beh)]
     L.append("adapter_hooks[:] = [%s]" % ", ".join("hook%d" % i for i in range(len(case["hooks"]))))
-    altx = {None: None, 0: "None", 1: "'ALTERNATE'", 2: "[]", 3: "('ALT', 'ERNATE')", 4: "0.0"}.get(case["alt"], "'ALTERNATE'")
-    call = "I(obj)" if altx is None else "I(obj, %s)" % altx
+    altx = {None: None, 0: "None", 1: "'ALTERNATE'", 2: "[]", 3: "('ALT', 'ERNATE')", 4: "0.0", 5: "EqTrue()",
+            6: "EqTrueNeTrue()", 7: "EqFalse()", 8: "EqRaises()", 9: "__import__('unittest.mock').mock.ANY"}.get(case["alt"], "'ALTERNATE'")
+    shape = case.get("shape") or ("pk" if case.get("kw") else "pp")
+    if altx is None:
+        call = "I(obj=obj)" if shape in ("kk", "kk_rev", "k") else "I(obj)"
+    else:
+        call = {"pp": "I(obj, ALT)", "pk": "I(obj, alternate=ALT)", "kk": "I(obj=obj, alternate=ALT)",
+                "kk_rev": "I(alternate=ALT, obj=obj)"}[shape]
+        L.append("ALT = %s" % altx)
     L += ["try:", "    print('result:', %s)" % call, "except Exception as e:", "    print('raised:', repr(e))",
           "finally:", "    adapter_hooks[:] = []", "print('steps:', log)"]
     return "\n".join(L)
